@@ -43,6 +43,9 @@ import LexVerif.Proof.WriteRadixFrac
 import LexVerif.Proof.WriteRadixIntText
 import LexVerif.Proof.WriteRadixRound
 import LexVerif.Proof.WriteRadixError
+import LexVerif.Proof.WriteRadixMid
+import LexVerif.Proof.WriteRadixBig
+import LexVerif.Proof.WriteRadixSmall
 -- API-level pipeline model (fast path → moderate path → slow path) and its op handler `apf`
 import LexVerif.Model.Ops.ParseFloatAlgo
 -- big-integer slow path (slow.rs / bigint.rs): models, op handler, theorems
